@@ -615,6 +615,86 @@ def undo_cross_module_expression_helpers(modules: Dict[str, ast.Module], known_q
             log.append(f"{mname}.{fn.name} (expression helper used from other modules) put back at its {len(calls)} call site(s)")
 
 
+def undo_lifted_closures(modules: Dict[str, ast.Module], known_quals: set, log: List[str]):
+    """"Lift closure to method" undone: private methods the reference does not know, whose every use is a call `self.m(..)` from ONE method the
+    reference does know (or from each other), are nested functions of that method again: moved to the top of its body, `self` dropped from their
+    parameters (the enclosing method's `self` is the same object), calls written `m(..)`.  A parameter that every call fills with the
+    enclosing method's variable of the same name is a captured variable again."""
+    for mname, tree in modules.items():
+        for cls in [st for st in tree.body if isinstance(st, ast.ClassDef)]:
+            methods = {m.name: m for m in cls.body if isinstance(m, ast.FunctionDef)}
+            new = {n: m for n, m in methods.items() if f"{mname}.{cls.name}.{n}" not in known_quals and n.startswith("_") and not n.startswith("__")
+                   and not m.decorator_list and m.args.args and m.args.args[0].arg == "self"
+                   and not (m.args.vararg or m.args.kwarg or m.args.kwonlyargs)}
+            if not new:
+                continue
+            # every reference to a new method anywhere in the module must be a call on self inside this class
+            callers: Dict[str, set] = {n: set() for n in new}
+            ok_names = set(new)
+            for n in list(new):
+                refs = [x for x in ast.walk(tree) if (isinstance(x, ast.Attribute) and x.attr == n) or (isinstance(x, ast.Name) and x.id == n)]
+                calls = []
+                for host_name, host in methods.items():
+                    for x in ast.walk(host):
+                        if isinstance(x, ast.Call) and isinstance(x.func, ast.Attribute) and x.func.attr == n and isinstance(x.func.value, ast.Name) and x.func.value.id == "self":
+                            calls.append(x)
+                            callers[n].add(host_name)
+                if len(refs) != len(calls) or not calls:
+                    ok_names.discard(n)
+            # group rooted at one known method
+            roots = {}
+            for n in ok_names:
+                seen, todo, root = set(), [n], set()
+                while todo:
+                    k = todo.pop()
+                    for c_ in callers.get(k, ()):
+                        if c_ in ok_names:
+                            if c_ not in seen:
+                                seen.add(c_)
+                                todo.append(c_)
+                        else:
+                            root.add(c_)
+                roots[n] = root
+            for host_name in sorted({next(iter(r)) for r in roots.values() if len(r) == 1}):
+                group = [n for n in ok_names if roots[n] == {host_name}]
+                host = methods.get(host_name)
+                if host is None or not group or f"{mname}.{cls.name}.{host_name}" not in known_quals:
+                    continue
+                # only for what E-INLINE cannot put back: a group with a member that calls itself (a helper without recursion is inlined instead)
+                if not any(n in callers[n] for n in group):
+                    continue
+                group_nodes = [new[n] for n in sorted(group, key=lambda k: new[k].lineno)]
+                host_locals = {x.id for x in ast.walk(host) if isinstance(x, ast.Name) and isinstance(x.ctx, ast.Store)} | {a.arg for a in host.args.args}
+                for g in group_nodes:
+                    g.args.args = g.args.args[1:]
+                # parameters that are captured variables in disguise
+                for g in group_nodes:
+                    for idx in range(len(g.args.args) - 1, -1, -1):
+                        pname = g.args.args[idx].arg
+                        if pname not in host_locals or idx < len(g.args.args) - len(g.args.defaults):
+                            pass
+                        sites = [x for h in [host] + group_nodes for x in ast.walk(h)
+                                 if isinstance(x, ast.Call) and isinstance(x.func, ast.Attribute) and x.func.attr == g.name
+                                 and isinstance(x.func.value, ast.Name) and x.func.value.id == "self"]
+                        if pname in host_locals and not g.args.defaults and all(
+                                len(x.args) > idx and isinstance(x.args[idx], ast.Name) and x.args[idx].id == pname and not x.keywords for x in sites) \
+                                and not any(isinstance(y, ast.Name) and y.id == pname and isinstance(y.ctx, ast.Store) for y in ast.walk(g)):
+                            for x in sites:
+                                del x.args[idx]
+                            del g.args.args[idx]
+                for h in [host] + group_nodes:
+                    for x in ast.walk(h):
+                        if isinstance(x, ast.Call) and isinstance(x.func, ast.Attribute) and x.func.attr in group and isinstance(x.func.value, ast.Name) \
+                                and x.func.value.id == "self":
+                            x.func = ast.copy_location(ast.Name(id=x.func.attr, ctx=ast.Load()), x.func)
+                k = 1 if host.body and isinstance(host.body[0], ast.Expr) and isinstance(host.body[0].value, ast.Constant) else 0
+                for g in group_nodes:
+                    cls.body.remove(g)
+                host.body[k:k] = group_nodes
+                ast.fix_missing_locations(host)
+                log.append(f"{mname}.{cls.name}: {', '.join(g.name for g in group_nodes)} nested in {host_name} again (lifted closures)")
+
+
 def _find_site(tree, call):
     """(statement list, index, statement, call-is-the-whole-value) of the simple statement that evaluates `call`"""
     for holder in ast.walk(tree):
